@@ -245,3 +245,82 @@ def layout_agreement(ctx, P, rule="KAS-LAYOUT"):
     wsrc, rsrc = tu.src(P.need("kastore_write_header", "kastore").body), tu.src(P.need("kastore_read_header", "kastore").body)
     ctx.ob(rule, "magic", "memcpy(header, KAS_MAGIC, 8)" in wsrc and "strncmp(header, KAS_MAGIC, 8)" in rsrc, tu.loc(P.need("kastore_read_header", "kastore").node),
            "magic written and compared over the same 8 bytes")
+
+
+def read_validated(ctx, P, rule="READ-VALIDATED", floor=8):
+    """Every length / type that a kastore_gets* call reports is looked at before the array is accepted."""
+    ctx.rule(rule, "after every kastore_gets / kastore_gets_<type> call in the loaders, on every path on which the call succeeded and "
+                   "the function goes on (to its success return or to the next column), each value the call reported through an "
+                   "out-parameter (`&len`, `&type`, `&data_len`, ...) is consulted: compared in a condition, stored, or passed on.  "
+                   "A path that accepts the array without looking at its length or storage type lets an altered descriptor "
+                   "through (the bytes are then reinterpreted)")
+    tu = P.tus["tables"]
+    n = 0
+    for fn in tu.funcs.values():
+        sites = [c for c in calls(fn.body) if (callee(c) or "").startswith("kastore_gets")]
+        if not sites:
+            continue
+        cfg = CFG(fn)
+        errn = set()
+        for nd in cfg.nodes:
+            if nd.kind == "stmt" and nd.ast is not None:
+                s = tu.src(nd.ast)
+                if "tsk_trace_error" in s or "tsk_set_kas_error" in s or re.search(r"\bTSK_ERR_", s):
+                    errn.add(nd)
+        for k, c in enumerate(sites):
+            call_node = None
+            for nd in cfg.nodes:
+                if nd.ast is not None and nd.kind in ("stmt", "cond") and any(x is c for x in walk(nd.ast)):
+                    call_node = nd
+                    break
+            if call_node is None:
+                continue
+            outs = []
+            for a in c.kids[1:]:
+                a = strip(a)
+                if a is not None and a.k == "UnaryOperator" and a.op == "&":
+                    t = strip(a.kids[0])
+                    if t is not None and t.k == "DeclRefExpr" and (t.ty or "") in ("size_t", "int", "tsk_size_t"):
+                        outs.append(t.ref)
+            for v in outs:
+                def uses(nd, v=v):
+                    if nd.ast is None or nd is call_node:
+                        return False
+                    if nd.kind in ("cond", "switch"):
+                        return any(x.k == "DeclRefExpr" and x.ref == v for x in walk(nd.ast))
+                    if nd.kind == "stmt":
+                        a = nd.ast
+                        if is_assign(a) or a.k == "CompoundAssignOperator":
+                            return any(x.k == "DeclRefExpr" and x.ref == v for x in walk(a.kids[1]))
+                        if a.k in ("CallExpr", "ReturnStmt", "DeclStmt"):
+                            return any(x.k == "DeclRefExpr" and x.ref == v for x in walk(a))
+                    return False
+                users = {nd for nd in cfg.nodes if uses(nd)}
+                # a later kastore_gets that overwrites v ends the obligation (it starts its own)
+                dsts = {cfg.exit, call_node}
+                for nd in cfg.nodes:
+                    if nd is not call_node and nd.ast is not None and any(x.k == "CallExpr" and (callee(x) or "").startswith("kastore_gets") and
+                                                                          any(strip(y) is not None and strip(y).k == "UnaryOperator" and estr(strip(y).kids[0]) == v
+                                                                              for y in x.kids[1:]) for x in walk(nd.ast)):
+                        dsts.add(nd)
+                starts = [s for s, lab in call_node.succ]
+                path = None
+                for s in starts:
+                    if s in users or s in errn:
+                        continue
+                    if s in dsts:
+                        path = [call_node, s]
+                        break
+                    p = cfg.find_path(s, dsts, avoid=users | errn)
+                    if p:
+                        path = [call_node] + p
+                        break
+                n += 1
+                key = "%s|%s@%d|%s" % (fn.name, callee(c), k, v)
+                if path is None:
+                    ctx.ob(rule, key, True, tu.loc(c), "`%s` is consulted on every continuing path" % v)
+                else:
+                    wit = [tu.loc(p.ast).split(":")[-1] for p in path if p.ast is not None][:8]
+                    ctx.ob(rule, key, False, tu.loc(c), "`%s` reported by %s is never consulted on the path through lines %s" % (v, callee(c), " -> ".join(wit)))
+    ctx.floor(rule, floor)
+    return n
